@@ -40,7 +40,7 @@ Vals == {Missing, JNull, JBool(TRUE), JBool(FALSE), JNum(0), JNum(1), SA, SB, T1
 Doc(a, b) == JObj((IF IsMissing(a) THEN <<>> ELSE <<"a">>) \o (IF IsMissing(b) THEN <<>> ELSE <<"b">>),
                   (IF IsMissing(a) THEN <<>> ELSE <<a>>) \o (IF IsMissing(b) THEN <<>> ELSE <<b>>))
 Docs == {Doc(a, b) : a \in Vals, b \in Vals}
-ValsS == {Missing, JBool(FALSE), JNum(0), JNum(1), SA, T1}
+ValsS == {Missing, JBool(FALSE), JNum(1), SA, T1}
 DocsS == {Doc(a, b) : a \in ValsS, b \in ValsS}
 ValsR == {Missing, JBool(TRUE), JNum(1), SA}
 DocsR == {Doc(a, b) : a \in ValsR, b \in ValsR}
@@ -67,6 +67,7 @@ Small == {Atom("BooleanEquals", "a", JBool(TRUE)), Atom("StringEquals", "b", SA)
 Codes == {97, 42, 92, 63}
 Strs == {<<>>} \cup {<<c>> : c \in Codes} \cup {<<c, e>> : c \in Codes, e \in Codes}
 StrsShort == {<<>>} \cup {<<c>> : c \in Codes} \cup {<<97, 42>>, <<92, 42>>, <<42, 97>>, <<97, 97>>}
+Strs3 == {<<>>} \cup {<<c>> : c \in Codes} \cup {<<c, c>> : c \in Codes} \cup {<<97, 42>>, <<42, 97>>, <<92, 63>>}
 ResultSets == (SUBSET Open) \ {{}}
 
 VARIABLES stage, mode, d, x, y, z, ev, out
@@ -184,7 +185,7 @@ PickRest ==
        \/ mode = "atom" /\ x' \in Atoms /\ y' = 0 /\ z' = 0
        \/ mode = "tree" /\ x' \in Atoms /\ y' \in AtomsY /\ z' = 0
        \/ mode = "rules" /\ x' \in Small /\ y' \in Small /\ z' \in Small
-       \/ mode = "str3" /\ x' = x /\ y' \in Strs /\ z' \in Strs
+       \/ mode = "str3" /\ x' = x /\ y' \in Strs /\ z' \in Strs3
        \/ mode = "str" /\ x' = x /\ y' \in Strs /\ z' \in StrsShort
        \/ mode = "sets" /\ x' = x /\ y' \in ResultSets /\ z' \in ResultSets
     (* the result set of each rule and the outcome of every rule list, computed once per case *)
